@@ -63,6 +63,13 @@ ZERO: Lin = {}
 TOTAL: Lin = {"NL": 1, "NR": 1}
 
 
+class JoinOrderViolation(AnalysisError):
+    """the join has a recognisable shape that definitely emits rows out of left-row order (reported as a violation of the loop rule)"""
+    def __init__(self, msg, node=None):
+        super().__init__(msg)
+        self.node = node
+
+
 @dataclass
 class Emission:
     ev: Event
@@ -415,6 +422,20 @@ class JoinModel:
                     and lp.parents[0] != self.index_loop:
                 cands.append((lp.parents[0], lp.iter))
         if not cands:
+            # the index is consulted, but once per entry of ANOTHER dict (left rows grouped by key first): rows come out in the order
+            # of each key's first occurrence - a definite order violation, not an unrecognised shape
+            for e in it.events:
+                looked = e.kind == "call" and e.term[1] == ("attr", self.index, "get") and e.term[2]
+                if not looked or not e.loops or e.loops[0] == self.index_loop:
+                    continue
+                src = it.loops[e.loops[0]].iter
+                base = src[1][1] if (src is not None and src[0] == "call" and src[1][0] == "attr" and src[1][2] in ("items", "keys", "values")) else src
+                if base is not None and base[0] == "obj" and it.objs[base[1]].kind in ("dict", "defaultdict") and base != self.index:
+                    raise JoinOrderViolation(
+                        f"{self.f.qualname}: the index is probed once per entry of another dict (`for ... in {self.sh(src)[:40]}`, line "
+                        f"{getattr(it.loops[e.loops[0]].node, 'lineno', 0)}), not once per left row in row order: all left rows of a key are "
+                        f"emitted together at the position of the key's first occurrence - rows are not ordered by left row position",
+                        it.loops[e.loops[0]].node)
             self._err("probe loop (a row loop that looks a key up in the index) not found")
         if len({c[0] for c in cands}) != 1 or len({c[1] for c in cands}) != 1:
             self._err(f"the index is probed in {len({c[0] for c in cands})} loops with {len({c[1] for c in cands})} different lookups")
